@@ -253,16 +253,6 @@ theorem posc_fs_convert_near {cat fromU toU : Sym} {q : Qty} (hq : obtain poscDb
     ∃ r, convertFV poscDb cat fromU toU fv = .ok r ∧ |r.value - y| ≤ small / (fv.frac.denominator : Rat) :=
   fs_convert_near posc_allWF hq fv hy
 
-/-- **the bound is attained: below `SMALL` the fraction is lost.**  `0 1/2 um` converts to `0 km`
-although `0.5 um = 5·10⁻¹⁰ km` (known finding `tiny-increment`; the full-strength statement
-"`r.value = y` for all units" is false) -/
-theorem fs_convert_tiny_counterexample :
-    convertFV poscDb (Sym.ofString "length") (Sym.ofString "um") (Sym.ofString "km") ⟨0, ⟨1 / 2⟩⟩
-      = .ok ⟨0, ⟨0⟩⟩
-    ∧ (⟨Sym.ofString "length", Sym.ofString "um"⟩ : Qty).convertScalarValue poscDb (Sym.ofString "km") (1 / 2)
-      = .ok (1 / 2000000000) := by
-  constructor <;> decide +kernel
-
 /-! ### non-vacuity: affine units, a scale pair, the hypotheses of the exact theorem -/
 
 /-! ## 5. order and validity of FractionScalars = those of Scalars on `float(value)` -/
